@@ -72,6 +72,19 @@ pub struct ScriptedRng {
     pub draws: Vec<Vec<u8>>,
 }
 
+thread_local! {
+    static RNG_CALLS: std::cell::Cell<u64> = const { std::cell::Cell::new(0) };
+}
+
+/// Number of calls any scripted RNG of this thread has served since the last reset.
+pub fn rng_calls() -> u64 {
+    RNG_CALLS.with(|c| c.get())
+}
+
+pub fn reset_rng_calls() {
+    RNG_CALLS.with(|c| c.set(0));
+}
+
 impl ScriptedRng {
     pub fn new(seed: u64) -> Self {
         ScriptedRng { stream: Rng::new(seed), log: Vec::new(), subst: Vec::new(), draws: Vec::new() }
@@ -82,6 +95,7 @@ impl ScriptedRng {
         r
     }
     fn produce(&mut self, dest: &mut [u8]) {
+        RNG_CALLS.with(|c| c.set(c.get() + 1));
         let idx = self.draws.len();
         // always advance the underlying stream so substitution does not shift later draws
         self.stream.fill(dest);
